@@ -61,7 +61,7 @@ void sched_cb(int point, Search*)
     if (!hit) return;
     S.armed.store(false);
     S.parked.store(true, std::memory_order_release);
-    while (!S.release.load(std::memory_order_acquire)) std::this_thread::yield();
+    while (!S.release.load(std::memory_order_acquire)) std::this_thread::sleep_for(std::chrono::microseconds(20));
     S.parked.store(false, std::memory_order_release);
 }
 
@@ -110,9 +110,78 @@ std::string pick_position(Tape& t, Report& rep)
 // ceiling); measured on the unchanged tree: <= 100 visits in 99.6% of schedules, maximum below 1,000.
 const long VISIT_BOUND = 60000;
 
+// Free-running trials: no parking.  go infinite, let the search run for a generated number of node visits, then stop.  The
+// stop must be honoured wherever it lands (also in windows between the hook points).  The bound is counted from the moment the
+// reader thread has provably processed the stop (readyok for an isready sent after it), so scheduling delays cannot fail it.
+bool c06_free_running(Tape& t, Report& rep)
+{
+    Rig& R = rig();
+    Sched& S = sched();
+    verif::virtual_clock = false;
+    S.counting_only = true;
+    verif::callback = &sched_cb;
+    std::string fen = pick_position(t, rep);
+    int trials = 10 + int(t.choose(30));
+    R.send("ucinewgame");
+    R.send("position fen " + fen);
+    for (int i = 0; i < trials; ++i)
+    {
+        uint64_t k = t.chance(1, 4) ? 0 : 1 + t.choose(4000);
+        auto tt0 = std::chrono::steady_clock::now();
+        size_t mark = R.out.size();
+        S.visits.store(0, std::memory_order_relaxed);
+        R.send("go infinite");
+        auto t0 = std::chrono::steady_clock::now();
+        bool endedAlone = false;
+        for (int spin = 0; S.visits.load(std::memory_order_relaxed) < k && std::chrono::steady_clock::now() - t0 < std::chrono::seconds(10); ++spin)
+        {
+            // the engine ends even an infinite search by itself on a mate score: nothing to stop then
+            if ((spin & 63) == 63 && R.out.wait_line(mark, rigns::is_bestmove, 0) >= 0) { endedAlone = true; break; }
+            std::this_thread::sleep_for(std::chrono::microseconds(30));
+        }
+        size_t m2 = R.out.size();
+        R.send("stop");
+        R.send("isready");
+        rep.eval();
+        rep.cls(endedAlone ? "c06:free_running_search_ended_by_itself" : "c06:free_running_trial");
+        std::string desc = "position fen " + fen + " ; go infinite ; (free running, stop after >= " + std::to_string(k) + " visits, trial " + std::to_string(i) + ")";
+        rep.decoded = desc;
+        if (R.out.wait_line(m2, [](const std::string& l) { return l == "readyok"; }, 30000) < 0)
+            return rep.fail("stop:no_readyok_during_search", "isready after stop was not answered\n " + desc);
+        uint64_t base = S.visits.load(std::memory_order_relaxed);  // the stop has been processed by now
+        bool got = false, lost = false;
+        auto t1 = std::chrono::steady_clock::now();
+        for (;;)
+        {
+            if (R.out.wait_line(mark, rigns::is_bestmove, 1) >= 0) { got = true; break; }
+            if (S.visits.load(std::memory_order_relaxed) - base > uint64_t(VISIT_BOUND)) { lost = true; break; }
+            if (std::chrono::steady_clock::now() - t1 > std::chrono::seconds(120)) break;
+        }
+        if (!got)
+        {
+            uint64_t further = S.visits.load(std::memory_order_relaxed) - base;
+            R.send("stop");
+            bool recovered = R.out.wait_line(mark, rigns::is_bestmove, 60000) >= 0;
+            if (lost)
+                return rep.fail("stop:lost:free_running", "a stop sent to a free-running search was lost: " + std::to_string(further) + " node visits after the stop had been processed without a bestmove (bound " +
+                                                              std::to_string(VISIT_BOUND) + "); a second stop " + (recovered ? "ended the search" : "was ignored too") + "\n " + desc);
+            rep.cls("c06:inconclusive_no_bestmove_in_120s_without_visits");
+            if (!recovered) _exit(3);
+            return true;
+        }
+        {
+            auto ms = std::chrono::duration_cast<std::chrono::milliseconds>(std::chrono::steady_clock::now() - tt0).count();
+            rep.cls(ms < 20 ? "c06:trial_wall_lt_20ms" : ms < 200 ? "c06:trial_wall_lt_200ms" : ms < 2000 ? "c06:trial_wall_lt_2s" : "c06:trial_wall_ge_2s");
+        }
+    }
+    rep.nontriv(fnv1a(fen + std::to_string(trials)));
+    return true;
+}
+
 bool prop_C06(Tape& t, Report& rep)
 {
     br::init_engine();
+    if (t.chance(1, 3)) return c06_free_running(t, rep);
     Rig& R = rig();
     Sched& S = sched();
     verif::virtual_clock = false;
